@@ -856,11 +856,11 @@ class SGPRPredictionStrategy(DefaultPredictionStrategy):
         if isinstance(test_test_covar, LazyEvaluatedKernelTensor) and isinstance(
             test_test_covar.kernel, InducingPointKernel
         ):
-            test_test_covar = LazyEvaluatedKernelTensor(
+            # call the base kernel: its own active_dims have not been applied to x1 / x2 yet
+            test_test_covar = test_test_covar.kernel.base_kernel(
                 test_test_covar.x1,
                 test_test_covar.x2,
-                test_test_covar.kernel.base_kernel,
-                test_test_covar.last_dim_is_batch,
+                last_dim_is_batch=test_test_covar.last_dim_is_batch,
                 **test_test_covar.params,
             )
 
